@@ -100,6 +100,44 @@ def make_pairs(tier, rng):
             continue
         pairs.append((j, ("entry" if prog["entry"] else "all") + "/" + ("sel" if sel else "nosel") + "/" + j["on_missing"]
                       + ("/pausing" if paused else "") + ("/warm" if j["warm"] else "")))
+    # nested selections: a nested graph exposes only what its own select() names (a hidden inner output must not
+    # come back, even under run-time select="**"), combined with an outer graph-level / run-time selection
+    want = 400 if thorough else 90
+    tries = 0
+    while want > 0 and tries < 20000:
+        tries += 1
+        flat, _ = gen.random_flat(rng, gate=0.0, cyclic=0.0, n_nodes=(3, 5), defaults=0.2, bound=0.1, multi_out=0.5, side_effect=0.0)
+        subs = list(gen.convex_subsets(flat))
+        if not subs:
+            continue
+        S = rng.choice(subs)
+        inner_nodes = [n for n in flat["nodes"] if n["name"] in S]
+        used_outside = {p for n in flat["nodes"] if n["name"] not in S for p in n["inputs"]}
+        hid = [o for n in inner_nodes if len(n["outputs"]) >= 2 for o in n["outputs"][1:] if o not in used_outside]
+        if not hid:
+            continue
+        hidden = [rng.choice(hid)]
+        inner_out = [o for n in inner_nodes for o in n["outputs"]]
+        try:
+            prog = gen.nest(flat, S, selected=[o for o in inner_out if o not in hidden], pos=rng.randint(0, len(flat["nodes"]) - len(S)))
+        except Exception:  # noqa: BLE001
+            continue
+        exposed = sorted({o for n in prog["nodes"] for o in n["outputs"]})
+        if rng.random() < 0.4:
+            prog["selected"] = rng.sample(exposed, rng.randint(1, min(2, len(exposed))))
+        sel = rng.choice([None, None, ["**"], rng.sample(exposed, 1)])
+        try:
+            prov = build.suggest_inputs(prog, rng)
+        except Exception:  # noqa: BLE001
+            continue
+        j = gen.job(0, prog, prov, mode=rng.choice(["sync", "async"]), select=sel)
+        j["on_missing"] = rng.choice(["ignore", "warn", "error"])
+        j["warm"] = False
+        o, _, _ = predict.try_real(j, on_missing=j["on_missing"])
+        if "rejected" in o:
+            continue
+        pairs.append((j, f"nested-select/hidden={hidden}/" + ("sel" if sel else "nosel") + "/" + j["on_missing"]))
+        want -= 1
     for i, (j, _) in enumerate(pairs):
         j["id"] = i + 1
     return pairs
@@ -156,7 +194,7 @@ def run(tier, seed):
                 "nodes": [(n["name"], n["inputs"], n["outputs"]) for n in mid["prog"]["nodes"]], "values": reals[mid["id"]].get("values")})
     ctx.assumptions += ["upper bound of the entry-point scope uses DECLARED dependencies (any producer of a name, gate->target, producer->waiter): HGProps!Downstream",
                         "inputs are chosen from the implementation's own input spec (the input contract is C08's subject)"]
-    return ctx.finish(rule="seeded random DAG/gated/cyclic programs x entry-point sets (1-2 non-gate nodes) x graph-level select x run-time select (names or '**') x on_missing in {ignore,warn,error} x runner, including failing nodes (partial results) and pausing interrupts (async), and derivation histories in which every parent graph object was run before the scoped graph was derived from it; non-trivial = some entry point or selection configured; distinct = structural hash")
+    return ctx.finish(rule="seeded random DAG/gated/cyclic programs x entry-point sets (1-2 non-gate nodes) x graph-level select x run-time select (names or '**') x on_missing in {ignore,warn,error} x runner, including failing nodes (partial results) and pausing interrupts (async), and derivation histories in which every parent graph object was run before the scoped graph was derived from it; nested graphs whose own select() hides an inner output, under outer graph-level / run-time selections; non-trivial = some entry point or selection configured; distinct = structural hash")
 
 
 def replay(path):
